@@ -62,8 +62,8 @@ class P(Property):
             'trailers x peer SETTINGS carrying MAX_FIELD_SECTION_SIZE in {absent frame, absent parameter, 0, 41, 42, 43, 1000, 2^62-1} (decides '
             'whether the 431 answer is written); observed: delivered or header-too-big, error scope, the HEADERS payload written in reaction '
             '(decoded by the reference decoder: must be :status 431), stop/reset codes, connection close. lim.tx: own limit (irrelevant, '
-            'varied) x peer limit P in {absent,0,1,41,42,43,75,167,199..202,1000,70000,2^62-1, seeded} x programs of send_request / '
-            'send_response / send_trailers with sizes P-2..P+2 and seeded others, with the peer SETTINGS applied before, between or after '
+            'varied) x peer limit P in {absent,0,1,41,42,43,75,167,199..202,1000,2500,2^32,2^62-1, seeded} x programs of send_request / '
+            'send_response / send_trailers (sizes up to 2500: the extracted Huffman encoder model is quadratic) with sizes P-2..P+2 and seeded others, with the peer SETTINGS applied before, between or after '
             'the send attempts or never; observed per call: Ok or HeaderTooBig and exactly what was written (decoded by the reference '
             'decoder: must be the intended field list). non-trivial = lim.rx cases with a valid section, lim.tx cases with a send call')
     trusted_extra = [
@@ -101,31 +101,34 @@ class P(Property):
                         continue
                     fs = base_fs + ex
                     assert size_of(fs) == t
-                    ps = peers if (role == 'srv' and kind == 'hdr' and abs(t - L) <= 2) else [rng.choice(peers)]
+                    # a client must first get its own request past the peer's limit: only generous peers there
+                    ps = peers if (role == 'srv' and kind == 'hdr' and abs(t - L) <= 2) else \
+                        [rng.choice(peers if role == 'srv' else ['none', '-', '1000', str(MAXL)])]
                     for P in ps:
-                        rx(role, kind, L, P, fs, plain=rng.random() < 0.3)
+                        # big sections with raw strings only: the extracted Huffman model is quadratic in the string length
+                        rx(role, kind, L, P, fs, plain=(t > 3000 or rng.random() < 0.3))
         # sections with static-table hits of every shape, sized around small limits
         for _ in range(40 if quick else 2000):
             fs = RESP + [rng.choice(STATIC) for _ in range(rng.randint(0, 4)) if True]
             fs = [f for f in fs if not f[0].startswith(b':') or f == RESP[0]]
             t = size_of(fs)
             for L in (t - 1, t, t + 1):
-                rx('cli', 'hdr', L, rng.choice(peers), fs)
+                rx('cli', 'hdr', L, rng.choice(['none', '-', '1000', str(MAXL)]), fs)
         # invalid sections (connection scope is C11's subject; here: no stream-level outcome is invented)
-        for h in ('0500d9', '0080d9', '0000ff24', '000081', '0000', '00'):
+        for h in ('0500d9', '0080d9', '0000ff24', '000081', '00'):
             out.append('lim.rx cli hdr 1000 none ' + h)
             out.append('lim.rx srv hdr 1000 none ' + h)
 
         # ---- send side
-        peer_limits = ['-', 0, 1, 41, 42, 43, 75, 76, 167, 199, 200, 201, 202, 1000, 70000, MAXL]
-        peer_limits += [rng.randint(30, 3000) for _ in range(8 if quick else 80)]
+        peer_limits = ['-', 0, 1, 41, 42, 43, 75, 76, 167, 199, 200, 201, 202, 1000, 2500, 2 ** 32, MAXL]
+        peer_limits += [rng.randint(30, 2500) for _ in range(8 if quick else 80)]
         for role in ('cli', 'srv'):
             hk = 'req' if role == 'cli' else 'resp'
             for P in peer_limits:
                 pv = MAXL if P == '-' else P
-                near = [pv + d for d in (-2, -1, 0, 1, 2)] if pv < 10 ** 6 else []
-                hs = sorted({k for k in near + [167 if role == 'cli' else 42, rng.randint(200, 3000)] if k >= 0 and k_ok(hk, k)})
-                ts = sorted({k for k in near + [0, 33, rng.randint(33, 3000)] if k >= 0 and k_ok('trl', k)})
+                near = [pv + d for d in (-2, -1, 0, 1, 2)] if pv <= 2500 else []
+                hs = sorted({k for k in near + [167 if role == 'cli' else 42, rng.randint(200, 2500)] if k >= 0 and k_ok(hk, k)})
+                ts = sorted({k for k in near + [0, 33, rng.randint(33, 2500)] if k >= 0 and k_ok('trl', k)})
                 owns = [rng.choice([0, 100, 1000, MAXL])] if role == 'cli' else [rng.choice([167, 1000, MAXL])]
                 for own in owns:
                     for k in hs:
